@@ -85,7 +85,10 @@ class Gen:
             return f"{self.atom()} {op} o"
         if c < 0.85:
             return f"s {op} {r.choice([repr('b'), repr(''), 's', repr('abc')])}"
-        return f"o {op} o"
+        if c < 0.93:
+            return f"o {op} o"
+        v = r.choice(["a", "b", "o", "x"])
+        return f"{v} {r.choice(['==', '!=', '==', '!=', '<=', '>='])} {v}"
 
     def cond(self, d=0):
         r = self.rng
@@ -356,6 +359,8 @@ class Adv:
         Adv.LOG.append(name)
         if self.mode == "raise":
             raise ValueError("adv")
+        if self.mode == "never":      # equal to nothing, not even to itself
+            return name == "__ne__"
         if self.mode == "notimpl":
             return NotImplemented
         if self.mode == "nonbool":
@@ -592,7 +597,7 @@ def gen_input(rng) -> dict:
                    "opstr", "opstr", "opstrsw", "opbytes", "peek", "peek", "attrobj"])
     o = {"k": ok}
     if ok in ("adv", "advfull"):
-        o["mode"] = r.choice(["plain", "plain", "raise", "notimpl", "nonbool"])
+        o["mode"] = r.choice(["plain", "plain", "raise", "notimpl", "nonbool", "never"])
         o["val"] = r.choice([0, 1, 2, 3])
     elif ok == "int":
         o["v"] = r.choice([0, 1, 2, 3, 5])
